@@ -88,7 +88,7 @@ def starters():
             'views': tcli.STARTER_VIEWS, 'gitignore': '# Tally - Ignore sensitive data\ndata/\noutput/\n'}
 
 
-def concretise(fs, prefix='', crlf=False):
+def concretise(fs, prefix='', crlf=False, bom=False):
     cfg = prefix + 'config/'
     t = {cfg: None}
     s = fs['settings']
@@ -107,7 +107,8 @@ def concretise(fs, prefix='', crlf=False):
     if fs['views'] == 'X':
         t[cfg + 'views.rules'] = X_RULES
     if fs['data'] == 'D':
-        t[prefix + 'data/card.csv'] = c15.DATA
+        # (a statement exported by a spreadsheet program starts with a byte order mark: still the user's bytes)
+        t[prefix + 'data/card.csv'] = ('\ufeff' if bom else '') + c15.DATA
     if fs['gitignore'] == 'G':
         t[prefix + '.gitignore'] = G_IGNORE
     if fs['report'] == 'old':
@@ -115,7 +116,7 @@ def concretise(fs, prefix='', crlf=False):
     return t
 
 
-def abstract(snap, st, prefix='', crlf=False):
+def abstract(snap, st, prefix='', crlf=False, bom=False):
     BASES = BASES_CRLF if crlf else globals()['BASES']
     cfg = prefix + 'config/'
 
@@ -173,7 +174,7 @@ def abstract(snap, st, prefix='', crlf=False):
         out['rules'] = 'other'
     out['rulesbak'] = cls(cfg + 'merchants.rules.bak', {'U': c15.U_RULES, 'E': E_RULES, 'starter': st['rules']})
     out['views'] = cls(cfg + 'views.rules', {'V': V_RULES, 'X': X_RULES, 'starter': st['views']})
-    out['data'] = cls(prefix + 'data/card.csv', {'D': c15.DATA})
+    out['data'] = cls(prefix + 'data/card.csv', {'D': ('\ufeff' if bom else '') + c15.DATA})
     out['gitignore'] = cls(prefix + '.gitignore', {'G': G_IGNORE, 'starter': st['gitignore']})
     rep = get(prefix + 'output/spending_summary.html')
     out['report'] = 'absent' if rep is None else ('old' if rep == OLD_REPORT else 'new')
@@ -237,7 +238,8 @@ def _run_history(item):
         # what a command may touch does not depend on it
         new_layout = (sum(map(ord, hid)) // 3) % 2 == 1
         prefix = 'tally/' if new_layout else ''
-        tree = concretise(fs0, prefix=prefix, crlf=crlf)
+        bom = sum(map(ord, hid)) % 5 == 2
+        tree = concretise(fs0, prefix=prefix, crlf=crlf, bom=bom)
         if new_layout:
             tree['tally/config/.tally-schema'] = '1\n'
         cli.materialise(d, tree)
@@ -283,7 +285,7 @@ def _run_history(item):
             rcs.append(r['rc'])
             written.append(sorted({e['path'] for e in r['effects'] if 'path' in e}))
             snaps.append(snap())
-        states = [abstract(s, st, crlf=crlf) for s in snaps]
+        states = [abstract(s, st, crlf=crlf, bom=bom) for s in snaps]
         frames = [direct_frame(c, snaps[k], snaps[k + 1]) for k, c in enumerate(cmds)]
         return {'id': hid, 'cmds': cmds, 'states': states, 'frames': frames, 'rcs': rcs, 'written': written, 'addressed': hows}
     finally:
